@@ -35,6 +35,8 @@ class Session:
         self.rpow_terms = []
         self.watches = []
         self.ghost = {}
+        self.lctx = []          # ids of locally pushed branch conditions (arrays.guarded, loop summaries)
+        self.idx_subst = None
         self._int_solver = z3.Solver()
         self._int_solver.set("timeout", 50)
         self._decide_cache = {}
@@ -586,6 +588,94 @@ def _linearize(e):
     return r
 
 
+_abs_cache = {}
+
+
+def abstract_int_products(e):
+    """e with every product of integer constants (a*nx, nx*ny, after expansion) replaced by one opaque integer variable.
+    The result is implied by e read as a constraint on its models (every model of e extends to one of the abstraction), so a
+    set of abstracted hypotheses that is unsatisfiable proves the original set unsatisfiable; nothing else is concluded."""
+    i = e.get_id()
+    r = _abs_cache.get(i)
+    if r is not None:
+        return r
+    r = e
+    if z3.is_app(e) and e.num_args() > 0:
+        k = e.decl().kind()
+        done = False
+        if k == z3.Z3_OP_MUL and e.sort() == z3.IntSort() and sum(1 for c in e.children() if not z3.is_int_value(c)) > 1:
+            x = z3.simplify(e, som=True)
+            terms = x.children() if z3.is_app(x) and x.decl().kind() == z3.Z3_OP_ADD else [x]
+            acc = []
+            for t in terms:
+                if z3.is_int_value(t) or z3.is_const(t):
+                    acc.append(t)
+                    continue
+                m = _monomial(t)
+                if m is None:
+                    if z3.is_app(t) and t.decl().kind() == z3.Z3_OP_MUL and \
+                            sum(1 for c in t.children() if not z3.is_int_value(c)) <= 1:
+                        acc.append(t)
+                        continue
+                    acc = None
+                    break
+                acc.append(m)
+            if acc is not None:
+                r = acc[0] if len(acc) == 1 else z3.Sum(acc)
+                done = True
+        if not done:
+            ch = [abstract_int_products(c) for c in e.children()]
+            if any(a.get_id() != b.get_id() for a, b in zip(ch, e.children())):
+                try:
+                    r = e.decl()(*ch)
+                except Exception:
+                    r = e
+    _abs_cache[i] = r
+    _KEEP.append((e, r))
+    return r
+
+
+_rabs_cache = {}
+_RMUL = z3.Function("rmul!", z3.RealSort(), z3.RealSort(), z3.RealSort())
+_RDIV = z3.Function("rdiv!", z3.RealSort(), z3.RealSort(), z3.RealSort())
+
+
+def abstract_real_products(e):
+    """e with every product of two non-numeral real terms replaced by the uninterpreted rmul!(x, y) (arguments in a fixed
+    order, so commutativity is kept) and every division by a non-numeral by rdiv!(x, y).  As for abstract_int_products the
+    result is weaker than e: only an `unsat` answer on the abstraction is used.  It decides goals that hold by congruence
+    (both sides apply the same arithmetic to terms already known to be equal) without nonlinear reasoning."""
+    i = e.get_id()
+    r = _rabs_cache.get(i)
+    if r is not None:
+        return r
+    r = e
+    if z3.is_app(e) and e.num_args() > 0:
+        ch = [abstract_real_products(c) for c in e.children()]
+        k = e.decl().kind()
+        if k == z3.Z3_OP_MUL and e.sort() == z3.RealSort():
+            nums = [c for c in ch if z3.is_rational_value(c) or z3.is_algebraic_value(c)]
+            rest = [c for c in ch if not (z3.is_rational_value(c) or z3.is_algebraic_value(c))]
+            if len(rest) > 1:
+                rest.sort(key=lambda c: c.get_id())
+                acc = rest[0]
+                for c in rest[1:]:
+                    acc = _RMUL(acc, c)
+                r = z3.Product(nums + [acc]) if nums else acc
+            elif any(a.get_id() != b.get_id() for a, b in zip(ch, e.children())):
+                r = e.decl()(*ch)
+        elif k == z3.Z3_OP_DIV and not (z3.is_rational_value(ch[1])):
+            r = _RDIV(ch[0], ch[1])
+        elif any(a.get_id() != b.get_id() for a, b in zip(ch, e.children())):
+            try:
+                r = e.decl()(*ch)
+            except Exception:
+                r = e
+    _rabs_cache[i] = r
+    _KEEP.append((e, r))
+    return r
+
+
 def decide(c):
     """True / False when the integer facts and path condition of the session entail c / not c
     (index arithmetic only), else None.  Keeps slice guards out of the element terms."""
@@ -593,11 +683,14 @@ def decide(c):
         return c
     if not _int_only(c):
         return None
+    s = cur()
+    if s.idx_subst:
+        c = z3.substitute(c, *s.idx_subst)      # loop variable := writer iteration (loop summaries)
     c = _linearize(c)
     if c is None:
         return None
-    s = cur()
-    key = (c.get_id(), len(s.pc))
+    key = (c.get_id(), tuple(q.get_id() for q in s.pc if z3.is_expr(q)))
+    _KEEP.append((c, tuple(s.pc)))
     if key in s._decide_cache:
         return s._decide_cache[key]
     sol = s._int_solver
